@@ -150,10 +150,20 @@ def inflate_sites(rep):
             rel = os.path.relpath(os.path.join(d, f), rep.repo)
             tree = ast.parse(open(os.path.join(d, f)).read())
             k = 0
+            # functions that create a streaming decompressor: its flush() returns everything the bounded decompress() call held back
+            inflating = set()
+            for f_ in ast.walk(tree):
+                if isinstance(f_, (ast.FunctionDef, ast.AsyncFunctionDef)) and any(
+                        isinstance(c_, ast.Call) and ast.unparse(c_.func).split(".")[-1] in ("decompressobj", "ZstdDecompressor", "BZ2Decompressor", "LZMADecompressor", "stream_reader") for c_ in ast.walk(f_)):
+                    inflating |= {id(c_) for c_ in ast.walk(f_) if isinstance(c_, ast.Call)}
             for n in ast.walk(tree):
                 if not isinstance(n, ast.Call):
                     continue
                 fn = ast.unparse(n.func)
+                if id(n) in inflating and isinstance(n.func, ast.Attribute) and n.func.attr in ("flush", "readall", "copy"):
+                    out.append((rel, n.lineno, k, ast.unparse(n)[:100], False, f".{n.func.attr}() in a function that creates a streaming decompressor: flush()/readall() inflate the whole remaining input with no output bound"))
+                    k += 1
+                    continue
                 if fn in ("zlib.decompress", "gzip.decompress", "bz2.decompress", "lzma.decompress", "zstd.decompress", "zstandard.decompress"):
                     out.append((rel, n.lineno, k, ast.unparse(n)[:100], False, "one-shot decompress() has no output bound"))
                     k += 1
